@@ -12,6 +12,12 @@
 (*   - a walk from the first page: every item exactly once in listing      *)
 (*     order, pages no larger than requested (default / cap), total_size   *)
 (*     = number of items on every page, no error on the way                *)
+(*   - a walk after a history of writes ("hist" lines): the same, and the   *)
+(*     pages concatenated are exactly the key set the specification        *)
+(*     computes from the collection the case started with and the writes   *)
+(*     (a write that returned an error leaves the listing as it was, an    *)
+(*     accepted one changes it the way its kind says); total_size is the   *)
+(*     size of that set.  Whether a write is accepted is not judged here.  *)
 (* Not asserted (the text does not settle them): the exact page            *)
 (* boundaries (short or empty pages are allowed, so equality with the      *)
 (* reference Walk is reported as information only); which status code an   *)
@@ -40,6 +46,23 @@ ItemFails(t) ==
        \cup If((1..t.n) \subseteq seen, "item-missing")
        \cup If(~(0 \notin seen /\ Cardinality(seen) = Len(t.flat) /\ (1..t.n) \subseteq seen), "items-out-of-listing-order")
 
+\* the key set after the writes the real model saw: History of Paging.tla with the observed
+\* outcome in place of Refuses (eff is the documented effect of the concrete call when accepted)
+ApplyObs(K, o) == IF ~o.sup \/ ~o.ok THEN K
+                  ELSE IF o.eff = "add" THEN K \cup {o.key}
+                  ELSE IF o.eff = "remove" THEN K \ {o.key}
+                  ELSE K
+RECURSIVE HistoryObs(_, _)
+HistoryObs(K, ops) == IF ops = <<>> THEN K ELSE HistoryObs(ApplyObs(K, Head(ops)), Tail(ops))
+Written(t) == HistoryObs(Range(t.init), t.ops)
+
+HistFails(t) ==
+  LET E == Written(t) IN
+  (IF t.err = "OK" /\ t.ended
+   THEN If(Len(t.flatKeys) = Cardinality(E) /\ Range(t.flatKeys) = E, "pages-differ-from-written-contents")
+   ELSE {})
+  \cup If(\A i \in 1..Len(t.totals) : t.totals[i] = Cardinality(E), "total-size-differs-from-written-contents")
+
 Fails(t) ==
   If(t.panic = "", "panic")
   \cup (IF t.panic # "" THEN {}
@@ -47,7 +70,8 @@ Fails(t) ==
              \cup (IF MustFail(t)
                    THEN If(t.first # "OK", IF t.size < 0 THEN "negative-size-accepted" ELSE "malformed-token-accepted")
                    ELSE {})
-             \cup (IF t.k = "walk" /\ ~MustFail(t)
+             \cup (IF t.k = "hist" THEN HistFails(t) ELSE {})
+             \cup (IF t.k \in {"walk", "hist"} /\ ~MustFail(t)
                    THEN If(t.err = "OK", "error-on-valid-request")
                         \cup (IF t.err = "OK" /\ t.ended THEN ItemFails(t) ELSE {})
                         \cup If(\A i \in 1..Len(t.lens) : Allowed(t.size, t.lens[i]), "page-larger-than-requested")
